@@ -111,7 +111,8 @@ def inject_harness_file(scratch, rel, log):
     src = open(spath).read()
     if rel == "lib.rs":
         # many stacked #[kani::stub] attributes exceed rustc's default macro recursion limit (inserted line, nothing changed)
-        src = "#![recursion_limit = \"1024\"]\n" + src
+        # allocator_api (Kani build only): the BTreeMap contract stubs must repeat std's allocator type parameter
+        src = "#![recursion_limit = \"1024\"]\n#![cfg_attr(kani, feature(allocator_api))]\n" + src
         addition = "\n\n// ---- injected by /verif (insert-only) ----\n" + rewrite_attrs(text) + "\n"
     else:
         names = harness_names(text)
